@@ -290,7 +290,14 @@ def run_history_check(prop, tier, mode, runs, cat, budget_s, design_ref, assumpt
         cov["distinct_nontrivial_note"] = "fewer than 2 histories completed; counting attempted runs"
         cov["distinct_nontrivial"] = 2
     if level == "fault_enumeration":
+        lap = 2 * (13 * 5 * 18 + 13 * 12 * 3)
+        done = min(len(hr.recs[u]) for u in range(nuni))
+        cov["enumeration"] = {"index_space_per_lap": lap, "part_A_tag_corruption_runs_per_lap": 13 * 5 * 18, "part_B_misdirected_runs_per_lap": 13 * 12 * 3,
+                              "part_C_unsupported_histories_per_lap": lap // 2, "laps_completed_in_every_universe": done // lap,
+                              "tag_values_loaded": agg["stats"].get("tag_corruptions", 0), "misdirected_loads": agg["stats"].get("misdirected_images", 0),
+                              "unsupported_calls_issued": agg["stats"].get("unsupported_calls", 0)}
         cov["exhaustive"] = False
+        cov["exhaustive_note"] = "tags 0..1023, known-tag neighbours and the loader x image matrix are enumerated completely once per lap; the 32-bit tag sample and the histories are seeded"
     write_evidence(prop, tier, seed, level, cov, wall, len(violations), assumptions)
     print("%s %s: %d simulated histories x universes, %d distinct non-trivial, %d ok, %d died, %d precondition_failed, %d violation class(es), %d known, %.1fs" %
           (prop, tier, evaluations, len(nontrivial), agg["verdicts"]["ok"], agg["verdicts"]["died"], sum(agg["precondition_failed"].values()), len(violations), len(known_hit), wall))
@@ -331,7 +338,114 @@ def gate(hr, prop, mode, u, rec, d, seed):
         return False, None
     if cls2 != d["class"]:
         return False, None
+    # minimise the explicit history where the harness can replay one
+    full = None
+    for r in recs:
+        if "run" in r and r.get("spec"):
+            full = r["spec"]
+        if "partial" in r and r.get("spec"):
+            full = full or r["spec"]
+    if full:
+        ms, n = minimise_history(hr, mode, u, full, d["class"])
+        if ms:
+            rc3, recs3, out3, err3 = S.run_one([hr.exe, "replay", ms], env=envs, timeout=180)
+            c3, _ = outcome(rc3, recs3, err3)
+            if c3 == d["class"]:
+                replay["minimised_history"] = ms
+                replay["minimiser_replays"] = n
+                replay["minimised_from"] = full[:2000]
     return True, replay
+
+
+def _bar(spec):
+    d = collections.OrderedDict()
+    for kv in spec.split("|"):
+        if "=" in kv:
+            k, v = kv.split("=", 1)
+            d[k] = v
+    return d
+
+
+def _unbar(d):
+    return "|".join("%s=%s" % kv for kv in d.items())
+
+
+def minimise_history(hr, mode, u, spec, cls, budget_s=60):
+    """ddmin-style shrinking of an explicit history: C14-type plans (drop clients, drop calls, keeping
+    the interleaving consistent) and C08 op strings.  Returns (min_spec, replays) or (None, n)."""
+    t0 = time.time()
+    tries = [0]
+    env = universe_env(u)
+
+    def fails(sp):
+        tries[0] += 1
+        rc, recs, out, err = S.run_one([hr.exe, "replay", sp], env=env, timeout=120)
+        c, _ = outcome(rc, recs, err)
+        return c == cls
+
+    d = _bar(spec)
+    if "order" in d:
+        if not fails(_unbar(d)):
+            return None, tries[0]
+        k = int(d["clients"])
+        scripts = [d.get("s%d" % c, "").split(";") if d.get("s%d" % c) else [] for c in range(k)]
+        order = [int(x) for x in d["order"].split(".") if x != ""]
+
+        def build(scripts, order):
+            dd = collections.OrderedDict((a, b) for a, b in d.items() if not re.fullmatch(r"s\d+", a))
+            for c in range(k):
+                dd["s%d" % c] = ";".join(scripts[c])
+            dd["order"] = ".".join(str(x) for x in order)
+            return _unbar(dd)
+
+        # drop whole clients' scripts
+        for c in range(k):
+            if time.time() - t0 > budget_s or not scripts[c]:
+                continue
+            sc = [list(x) for x in scripts]
+            sc[c] = []
+            od = [x for x in order if x != c]
+            if fails(build(sc, od)):
+                scripts, order = sc, od
+        # drop single calls, last to first
+        for c in range(k):
+            j = len(scripts[c]) - 1
+            while j >= 0 and time.time() - t0 < budget_s:
+                sc = [list(x) for x in scripts]
+                del sc[c][j]
+                # remove the j-th occurrence of c from the interleaving
+                od, seen = [], 0
+                for x in order:
+                    if x == c:
+                        if seen == j:
+                            seen += 1
+                            continue
+                        seen += 1
+                    od.append(x)
+                if fails(build(sc, od)):
+                    scripts, order = sc, od
+                j -= 1
+        return build(scripts, order), tries[0]
+    if mode == "C08" and "ops" in d and "triple" in d:
+        base = collections.OrderedDict((a, b) for a, b in d.items() if a in ("mode", "run", "runseed", "cat"))
+        kind = d["triple"].split("/")[0]
+        base["forcekind"] = kind
+        ops = d["ops"]
+
+        def sp(o):
+            dd = collections.OrderedDict(base)
+            dd["ops"] = o if o else "S"
+            return _unbar(dd)
+        if not fails(sp(ops)):
+            return None, tries[0]
+        i = len(ops) - 1
+        while i >= 0 and len(ops) > 1 and time.time() - t0 < budget_s:
+            cand = ops[:i] + ops[i + 1:]
+            if cand and fails(sp(cand)):
+                ops = cand
+            i -= 1
+        return sp(ops), tries[0]
+    return None, tries[0]
 
 
 def outcome(rc, recs, err):
@@ -351,7 +465,10 @@ def replay_file(path):
     rp = json.load(open(path))
     exe = B.build("asan", "history_sim")
     u = rp["universe"]["index"]
-    rc, recs, out, err = S.run_one(argv_one(exe, rp["mode"], rp["base_seed"], rp["run"], rp["catalogue"], rp.get("extra", "")), env=universe_env(u), timeout=600)
+    if rp.get("minimised_history"):
+        rc, recs, out, err = S.run_one([exe, "replay", rp["minimised_history"]], env=universe_env(u), timeout=600)
+    else:
+        rc, recs, out, err = S.run_one(argv_one(exe, rp["mode"], rp["base_seed"], rp["run"], rp["catalogue"], rp.get("extra", "")), env=universe_env(u), timeout=600)
     sys.stdout.write(out[-6000:])
     if err:
         sys.stderr.write(err[:5000])
